@@ -125,7 +125,8 @@ func (w *healthWorld) syncAlive(s *nodeScript, ok bool) bool {
 func (w *healthWorld) refProbe(n *refNode) {
 	s := w.unix()
 	ok := w.probeOK(n.script)
-	n.masterDownRestore = false
+	// (masterDownRestore stays set until the next comparison has looked at it: the drain phase advances four
+	// seconds at a time, which may cover two probe rounds)
 	if ok {
 		n.lastChecked = s
 	}
@@ -328,6 +329,7 @@ func runHealth(r *simkit.Run, focus string) {
 		for _, n := range all {
 			real := n.node.IsStatusUp()
 			if real == n.up {
+				n.masterDownRestore = false
 				continue
 			}
 			clause := "C28-status-differs-from-probe-history"
